@@ -35,10 +35,15 @@ MUTANTS = [
     ("C13", "config/tracepoint_config.py", "        self._custom_ids.append(tp_id)\n        self.__trigger_update(None, None)\n        return tp_id", "        self._custom_ids.insert(0, tp_id)\n        self.__trigger_update(None, None)\n        return tp_id"),
     ("C13", "config/tracepoint_config.py", "                del self._custom[idx]\n", "                del self._custom[0]\n"),
     ("C13", "config/tracepoint_config.py", "                self.__trigger_update(None, None)\n                return", "                return"),
+    ("C15", "processor/trigger_handler.py", "            if context.event == 'line' and line_context_done:\n                break\n", ""),
+    ("C15", "processor/trigger_handler.py", "            if context.event != 'line':\n                break\n", ""),
+    ("C15", "processor/context/callback_context.py", "        if event in ['exception', 'return']:", "        if event in ['exception', 'return', 'line']:"),
+    ("C15", "processor/context/callback_context.py", "if file != self.__filename or function_name != self.__function_name:", "if file != self.__filename:"),
+    ("C04", "api/tracepoint/trigger.py", "return self.__get_int(FIRE_PERIOD, 1000)", "return self.__get_int(FIRE_PERIOD, 100)"),
 ]
 if len(sys.argv) > 1:
     MUTANTS = [m for m in MUTANTS if m[0] in sys.argv[1:]]
-ALL = ["C02", "C03", "C04", "C05", "C10", "C11", "C12", "C13", "C18", "C19"]
+ALL = ["C02", "C03", "C04", "C05", "C10", "C11", "C12", "C13", "C15", "C18", "C19"]
 
 
 def verdicts():
